@@ -30,6 +30,28 @@ impl<'a, T> IntoIterator for &'a HeadKnown<T> {
     }
 }
 
+/// A column with missing entries: only the present values are yielded, `size_hint() == (0, Some(slots))`
+/// where `slots` exceeds the number of values by the number of holes.
+pub struct Sparse<T>(pub Vec<Option<T>>);
+impl<T: Clone> Sparse<T> {
+    /// `values` with `holes` missing entries spread over it (deterministic positions)
+    pub fn of(values: &[T], holes: usize) -> Self {
+        let mut v: Vec<Option<T>> = values.iter().cloned().map(Some).collect();
+        for h in 0..holes {
+            let pos = if v.is_empty() { 0 } else { (h * 7 + 1) % (v.len() + 1) };
+            v.insert(pos, None);
+        }
+        Sparse(v)
+    }
+}
+impl<'a, T> IntoIterator for &'a Sparse<T> {
+    type Item = &'a T;
+    type IntoIter = std::iter::Flatten<Iter<'a, Option<T>>>;
+    fn into_iter(self) -> Self::IntoIter {
+        self.0.iter().flatten()
+    }
+}
+
 /// by-value iterator of unknown length (for `FromIterator` / `Extend` style entry points)
 pub fn unsized_iter<T: Copy>(v: &[T], how: usize) -> Box<dyn Iterator<Item = T> + '_> {
     match how % 4 {
